@@ -7,7 +7,7 @@ import (
 
 // C06 — natural-language text survives both codecs byte for byte.
 
-var vpC06Props = []string{"name", "summary", "content", "preferredUsername", "source.content", "source.content-without-mediaType", "link.name", "summary-alone-in-embedded-object", "name-alone-in-embedded-object", "content-alone-in-embedded-object"}
+var vpC06Props = []string{"name", "summary", "content", "preferredUsername", "source.content", "source.content-without-mediaType", "link.name", "summary-alone-in-embedded-object", "name-alone-in-embedded-object", "content-alone-in-embedded-object", "name-alone-at-top-level", "preferredUsername-alone-at-top-level", "link-name-alone-at-top-level"}
 
 // vpC06Value builds the value holding text t at property p in form f
 // (0 single untagged, 1 single tagged, 2 two-language map with t as the first text, 3 map with t as the second text,
@@ -40,6 +40,36 @@ func vpC06Value(p, f int, t []byte) (Item, func(Item) NaturalLanguageValues) {
 		}
 	case 5:
 		return &Object{ID: "https://h.ex/i", Type: NoteType, Source: Source{Content: n}}, func(y Item) NaturalLanguageValues { o, _ := ToObject(y); return o.Source.Content }
+	case 10:
+		// the text is everything the value says: no id, no type
+		return &Object{Name: n}, func(y Item) NaturalLanguageValues {
+			o, _ := ToObject(y)
+			if o == nil {
+				return nil
+			}
+			return o.Name
+		}
+	case 11:
+		return &Actor{PreferredUsername: n}, func(y Item) NaturalLanguageValues {
+			var out NaturalLanguageValues
+			_ = OnActor(y, func(a *Actor) error { out = a.PreferredUsername; return nil })
+			if out == nil {
+				// a typeless document is an Object to the decoder: the text must still be there
+				_ = OnObject(y, func(o *Object) error { return nil })
+			}
+			return out
+		}
+	case 12:
+		return &Link{Name: n}, func(y Item) NaturalLanguageValues {
+			if l, ok := y.(*Link); ok && l != nil {
+				return l.Name
+			}
+			o, _ := ToObject(y)
+			if o == nil {
+				return nil
+			}
+			return o.Name
+		}
 	case 7, 8, 9:
 		// the text is everything an embedded object says (no id, no type)
 		in := &Object{}
@@ -84,7 +114,22 @@ func vpC06Value(p, f int, t []byte) (Item, func(Item) NaturalLanguageValues) {
 func vpC06Check(cell string, codec int, x Item, get func(Item) NaturalLanguageValues, f int, t []byte) {
 	var y Item
 	var err error
-	if codec == 0 {
+	if a, ok := x.(*Actor); ok && len(a.Type) == 0 {
+		// an actor that bears no type name cannot be recognised by the package-level decoders (they
+		// dispatch on the name): it goes through the type's own methods
+		var b []byte
+		out := &Actor{}
+		if codec == 0 {
+			b, err = a.MarshalJSON()
+			vpAssert("json/encode/"+cell, err == nil && len(b) > 0)
+			err = out.UnmarshalJSON(b)
+		} else {
+			b, err = a.GobEncode()
+			vpAssert("gob/encode/"+cell, err == nil && len(b) > 0)
+			err = out.GobDecode(b)
+		}
+		y = out
+	} else if codec == 0 {
 		var b []byte
 		b, err = vpMarshalItem(x)
 		vpAssert("json/encode/"+cell, err == nil && len(b) > 0)
